@@ -115,12 +115,12 @@ Definition no_drop_conflict_b (sb so st : schema) (b o t : content) : bool :=
   forallb (fun k => negb (drop_conflict_at sb so st b o t k)) (keys b ++ keys o ++ keys t).
 Definition soutcome_ok (m : onconf) (sb so st : schema) (b o t : content) (r : op_obs) : bool :=
   let sm := schema_merge sb so st in
-  let rb := reshape sb sm b in let ro := reshape so sm o in let rt := reshape st sm t in
+  let rb := reshape sb sm b in let ro := settle sb so sm b o t in let rt := settle sb st sm b t o in
   let okm := no_conflict_b rb ro rt && no_drop_conflict_b sb so st b o t in
   let k := k_kind r in
   if k =? 0 then okm && is_merge3_b rb ro rt (k_data r) && canonical (k_data r) && schema_eqb (k_schema r) sm
   else if k =? 1 then negb okm && negb (is_abort m)
-  else if k =? 2 then okm && schema_eqb sm so && is_merge3_b rb ro rt o
+  else if k =? 2 then okm && schema_eqb sm so && is_merge3_b rb ro rt (reshape so sm o)
   else if k =? 6 then
     is_abort m && negb okm && k_restored r && ext_eqb (k_data r) o && canonical (k_data r) && schema_eqb (k_schema r) so
   else false.
